@@ -317,9 +317,9 @@ func (s *MemoryBackend) read(ctx context.Context, store string, filter storage.R
 	var from int
 	if options != nil && options.Pagination.From != "" {
 		from, err = strconv.Atoi(options.Pagination.From)
-		if err != nil {
-			telemetry.TraceError(span, err)
-			return nil, err
+		if err != nil || from < 0 {
+			telemetry.TraceError(span, storage.ErrInvalidContinuationToken)
+			return nil, storage.ErrInvalidContinuationToken
 		}
 	}
 
@@ -678,8 +678,8 @@ func (s *MemoryBackend) ReadAuthorizationModels(ctx context.Context, store strin
 
 	if options.Pagination.From != "" {
 		from, err = strconv.Atoi(options.Pagination.From)
-		if err != nil {
-			return nil, "", err
+		if err != nil || from < 0 {
+			return nil, "", storage.ErrInvalidContinuationToken
 		}
 	}
 
@@ -875,8 +875,8 @@ func (s *MemoryBackend) ListStores(ctx context.Context, options storage.ListStor
 	var from int
 	if options.Pagination.From != "" {
 		from, err = strconv.Atoi(options.Pagination.From)
-		if err != nil {
-			return nil, "", err
+		if err != nil || from < 0 {
+			return nil, "", storage.ErrInvalidContinuationToken
 		}
 	}
 	pageSize := storage.DefaultPageSize
